@@ -35,8 +35,12 @@ class Prop:
         ctx = catalog.Ctx(rng, hot_p=0.3, falsy_p=0.25, sync_p=0.15)
         outer = ctx.new_source(maxn=5)
         inners = [ctx.new_source(prefix="p", maxn=4) for _ in range(rng.choice([1, 2, 3]))]
-        return {"clock": rng.choice(["test", "test", "historical"]), "form": form, "a": {}, "outer": outer, "inners": inners,
-                "sources": ctx.sources, "sub_t": 205, "horizon": 3000}
+        sc = {"clock": rng.choice(["test", "test", "historical"]), "form": form, "a": {}, "outer": outer, "inners": inners,
+              "sources": ctx.sources, "sub_t": 205, "horizon": 3500}
+        off = rng.choice([None, None, None, 37, 123, 411])
+        if off:
+            sc["sub2_t"] = 205 + off
+        return sc
 
     def build(self, w, sc):
         f = sc["form"]
